@@ -18,14 +18,21 @@ RULE = ('Hypothesis documents (profile "full" with global comments before the he
         'sub-sequence with category in the README-tree closure of the filter; unique listing == first occurrences by '
         'encoding; frequencies sum to the listing and agree per encoding; get_metacomments == the "!!" lines in order, '
         'with key == those starting with "!!!key"; is_monophonic == (one **kern header and no chord and >=1 '
-        'note/rest).  Non-trivial: the document has a split and at least one global comment after the header.')
+        'note/rest).  A second run uses degenerate documents (no barline, zero to two data rows, no null tokens in the '
+        'data rows, with or without a **kern spine).  Non-trivial: the document has a split and at least one global comment after the header.')
 ASSUMPTIONS = ['kv/spine.py depth-first order', 'kv/cats.py closure',
                'a barline token is listed with its normalised encoding (type without measure number), see C03']
 
 
 @st.composite
-def cases(draw):
-    doc = draw(D.documents(D.profile('full', hidden_bars=True)))
+def cases(draw, degenerate=False):
+    if degenerate:
+        # documents with (almost) no body: header, a few interpretation / comment rows, at most two data rows, no barline
+        doc = draw(D.documents(D.profile('full', min_body=0, max_body=2, barlines=False, final_barline=False, max_spines=2,
+                                         splits=False, partial_term=False, null_weight=0,
+                                         force_kern=draw(st.booleans()))))
+    else:
+        doc = draw(D.documents(D.profile('full', hidden_bars=True)))
     from .. import grammar as G
     # the same notes written a second time with their signifiers placed differently: distinct encodings, same export
     data_rows = [i for i, r in enumerate(doc['rows']) if 'c' in r and any('notes' in c for c in r['c'])
@@ -133,6 +140,7 @@ def run(ctx):
     if ctx.shard == 0:  # one long score (tree depth == number of rows)
         ctx.check_all([{'doc': D.long_document(1150 + 29 * (ctx.seed % 9), ctx.seed), 'filters': [['CORE'], ['BARLINES', 'LYRICS']], 'shape': 'list'}], check)
     ctx.run_hypothesis(cases(), check, max_examples=250 if ctx.quick else 2000, label='queries')
+    ctx.run_hypothesis(cases(degenerate=True), check, max_examples=60 if ctx.quick else 500, salt=1, label='degenerate-documents')
 
 
 def replay(case):
